@@ -77,6 +77,12 @@ func EndBlocker(ctx sdk.Context, k keeper.Keeper) {
 						sdk.NewAttribute(types.AttributeKeyPriceDenom, rawDenom),
 					),
 				})
+
+				// without an exchange rate no provider can be priced: the batch is skipped like one without
+				// eligible providers, so that the context keeps its schedule instead of being left on the queue
+				// of a block that has ended
+				k.SkipCurrentRequestBatch(ctx, requestContextID, requestContext)
+				k.DeleteNewRequestBatch(ctx, requestContextID, ctx.BlockHeight())
 				return
 			}
 
